@@ -481,4 +481,26 @@ def buildDA (variant : Variant) (cfg : Cfg) (P : List (LPat V)) : Except BuildEr
       .ok { variant := variant, states := states, outputs := nfa.out.outs, mapTable := mapper.table,
             alphaSize := mapper.alphaSize, kind := cfg.kind, numStates := acc.trie.size }
 
+/-! ### The entry point `build` (values are the input positions) -/
+
+/-- `patterns.enumerate().map(|(i, p)| V::try_from(i).map(|i| (p, i))).collect::<Result<_,_>>()`:
+`conv i` is `V::try_from(i)`; the first failing position aborts the collection. An input is a
+pattern's labels and its byte length. -/
+def convAll (conv : Nat → Option V) : Nat → List (List Nat × Nat) → Option (List (LPat V))
+  | _, [] => some []
+  | i, (k, b) :: r =>
+    match conv i with
+    | none => none
+    | some v =>
+      match convAll conv (i + 1) r with
+      | none => none
+      | some P => some (⟨k, b, v⟩ :: P)
+
+/-- `build` of either builder: convert the positions, then `build_with_values`. -/
+def buildPositions (conv : Nat → Option V) (variant : Variant) (cfg : Cfg)
+    (K : List (List Nat × Nat)) : Except BuildErr (DA V) :=
+  match convAll conv 0 K with
+  | none => .error .invalidConversion
+  | some P => buildDA variant cfg P
+
 end Daac
